@@ -223,6 +223,9 @@ impl std::fmt::Debug for ProxyBus {
 impl SignBus for ProxyBus {
     fn process_message<'a>(&mut self, message: Message<'_>) -> BusResult<'a> {
         self.sched.yield_point(self.me);
+        if self.sched.stalled().is_some() {
+            return Err(Box::new(crate::bus::SimBusError("simulation stalled")));
+        }
         let r = self.shared.lock().unwrap_or_else(|p| p.into_inner()).deliver(self.me, &message);
         Ok(r)
     }
@@ -237,8 +240,8 @@ impl Scenario for C14 {
     }
     fn runs(&self, tier: Tier) -> u64 {
         match tier {
-            Tier::Quick => 4_000,
-            Tier::Thorough => 300_000,
+            Tier::Quick => 12_000,
+            Tier::Thorough => 600_000,
         }
     }
     fn describe(&self) -> &'static str {
@@ -328,8 +331,10 @@ impl Scenario for C14 {
         if report.stalled == Some("watchdog") {
             panic!("scheduler watchdog fired");
         }
-        if let Some(why) = report.stalled {
-            cx.fail(format!("C14/liveness-{why}"), format!("the run did not finish within {} steps", report.steps));
+        if report.stalled.is_some() {
+            // a controller (traffic source) that never stops is not an isolation problem: every
+            // delivered message was judged, the rest of the run is simply cut
+            cx.probe("run_cut_at_step_cap");
         }
         cx.distinct2(report.sched_hash);
         cx.probe_n("task_switches", report.switches);
